@@ -37,6 +37,7 @@ GenNext ==
        /\ \/ \E f \in Flows : PeerReplies(f, nextId, f) /\ sched' = Append(sched, O("R", f, 0))
           \/ RelayDown /\ sched' = Append(sched, O("Down", 0, 0))
           \/ RelayUp /\ sched' = Append(sched, O("Up", 0, 0))
+          \/ \E f \in Flows : AssocFault(f) /\ sched' = Append(sched, O("Fault", f, 0))
           \/ SetRefuse(TRUE) /\ sched' = Append(sched, O("Refuse", 0, 0))
           \/ SetRefuse(FALSE) /\ sched' = Append(sched, O("Accept", 0, 0))
           \/ SetHold(TRUE) /\ sched' = Append(sched, O("Hold", 0, 0))
